@@ -74,7 +74,11 @@ def check(chk):
                        f.name in ("_run_handlers", "_run_handlers_sequential"), f.where(c),
                        detail="handlers may only be invoked by the two dispatch loops",
                        construct=f.ident, text="handler call " + short(c, 60))
-    chk.require(n_cb >= 2, "C01: handler invocation sites not found in events.py")
+    for f in (f_rh, f_rhs):
+        here = [c for c in ast.walk(f.node) if isinstance(c, ast.Call) and isinstance(c.func, ast.Attribute)
+                and c.func.attr == "callback" and isinstance(c.func.value, ast.Name)]
+        if not here:
+            chk.missing("OWN-1", "the dispatch loop invokes the registered handler", f)
 
     # ------------------------------------------------------------- OWN-2
     ROOTS = {
@@ -236,6 +240,175 @@ def check(chk):
     # ------------------------------------------------------------- DOM-3
     _callbacks(chk, f_pe, f_rhs, f_peq, f_pqe)
 
+    # ------------------------------------------------------------- FRESH-0
+    _fresh_queue(chk, f_peq)
+
+    # ------------------------------------------------------------- FWD-1
+    _forwarding(chk, repo, em)
+
+    # ------------------------------------------------------------- PRIO-1
+    _priority_value(chk, f_add)
+
+
+def _fresh_queue(chk, f_peq):
+    """FRESH-0: the deque being drained is never the deque posts are appended to.  Every binding of a local to
+    `self.event_queue` is followed, before any dispatch call can run, by re-binding `self.event_queue` to a fresh
+    deque -- otherwise events posted by a handler join the queue being drained (breadth-first instead of
+    depth-first: they run after events that were already waiting)."""
+    cfg = f_peq.cfg()
+    dispatch = [n.id for n, c in cfg.calls_named("_process_event", "_process_queue_event")]
+    if not dispatch:
+        chk.missing("FRESH-0", "process_event_queue dispatches events (_process_event / _process_queue_event call)", f_peq)
+        return
+
+    def rebinds_fresh(n):
+        if n.kind != "stmt" or not isinstance(n.ast, (ast.Assign, ast.AnnAssign)):
+            return False
+        tgts = n.ast.targets if isinstance(n.ast, ast.Assign) else [n.ast.target]
+        vals = [n.ast.value]
+        pairs = []
+        for t in tgts:
+            if isinstance(t, ast.Tuple) and isinstance(n.ast.value, ast.Tuple) and len(t.elts) == len(n.ast.value.elts):
+                pairs += list(zip(t.elts, n.ast.value.elts))
+            else:
+                pairs.append((t, vals[0]))
+        for t, v in pairs:
+            if src(t) == "self.event_queue" and isinstance(v, ast.Call) and dotted(v.func) in ("deque", "collections.deque") \
+                    and not v.args:
+                return True
+        return False
+
+    fresh = [n.id for n in cfg.nodes if rebinds_fresh(n)]
+    k = 0
+    for n in cfg.nodes:
+        if n.kind != "stmt" or not isinstance(n.ast, (ast.Assign, ast.AnnAssign)) or n.ast.value is None:
+            continue
+        v = n.ast.value
+        takes = src(v) == "self.event_queue" or (isinstance(v, ast.Tuple) and any(src(e) == "self.event_queue" for e in v.elts))
+        if not takes:
+            continue
+        k += 1
+        if n.id in fresh:       # swapped in one statement
+            ok, path = True, None
+        else:
+            path = cfg.path_avoiding(n.id, dispatch, fresh, ignore_exc=True)
+            ok = path is None
+        chk.ob("FRESH-0", "after taking self.event_queue for draining a fresh deque is installed before any dispatch",
+               ok, f_peq.where(n.ast),
+               detail="events posted by a handler would be appended to the deque being drained and run after events that "
+                      "were already waiting (breadth-first)", construct=f_peq.ident,
+               text="drained deque aliased with event_queue: " + short(n.ast, 60),
+               path=cfg.fmt_path(path, f_peq) if path else None)
+    chk.floor("FRESH-0", 2)
+    if k == 0:
+        chk.missing("FRESH-0", "the drain loop takes the pending deque (`<local> = self.event_queue`)", f_peq)
+
+
+def _names_in_args(call):
+    out = set()
+    for a in list(call.args) + [k.value for k in call.keywords]:
+        for x in ast.walk(a):
+            if isinstance(x, ast.Name):
+                out.add(x.id)
+    return out
+
+
+def _forwarding(chk, repo, em):
+    """FWD-1: the thin public wrappers hand everything they were given to the worker they wrap: posted kwargs,
+    the completion callback, the handler's registration kwargs / priority.  A dropped `**kwargs` compiles, passes
+    every test that posts without arguments, and silently strips the arguments from every event of that type."""
+    TABLE = [
+        # wrapper, callee, parameters that must appear in the call
+        ("post", "_post", ("event", "callback", "kwargs")),
+        ("post_boolean", "_post", ("event", "callback", "kwargs")),
+        ("post_queue", "_post", ("event", "callback", "kwargs")),
+        ("post_relay", "_post", ("event", "callback", "kwargs")),
+        ("post_async", "post", ("event", "kwargs")),
+        ("post_relay_async", "post_relay", ("event", "kwargs")),
+        ("post_queue_async", "post_queue", ("event", "kwargs")),
+        ("add_async_handler", "add_handler", ("event", "handler", "priority", "blocking_facility", "kwargs")),
+        ("_async_handler_coroutine", "_coroutine", ("kwargs",)),
+    ]
+    for wname, callee, need in TABLE:
+        f = em.methods.get(wname)
+        if f is None:
+            chk.expect(False, "C01: EventManager.%s vanished" % wname)
+            continue
+        chk.analysed(f)
+        calls = [c for c in ast.walk(f.node) if isinstance(c, ast.Call) and (
+            (isinstance(c.func, ast.Attribute) and c.func.attr == callee) or
+            (isinstance(c.func, ast.Name) and c.func.id == callee))]
+        if not calls:
+            chk.missing("FWD-1", "%s hands over to %s" % (wname, callee), f)
+            continue
+        params = set(f.params()) | ({f.vararg_kw} if f.vararg_kw else set())
+        for c in calls:
+            got = _names_in_args(c)
+            for p_ in need:
+                if p_ not in params:
+                    continue        # the wrapper no longer has that parameter: nothing to forward
+                ok = p_ in got
+                if p_ == f.vararg_kw:
+                    ok = any(k.arg is None and isinstance(k.value, ast.Name) and k.value.id == p_ for k in c.keywords)
+                chk.ob("FWD-1", "%s forwards `%s` to %s" % (wname, p_, callee), ok, f.where(c),
+                       detail="the argument is silently dropped for every event / handler going through this wrapper",
+                       construct=f.ident, text="%s does not forward %s" % (wname, p_))
+    # the callbacks the dispatcher invokes get the kwargs that were queued with them
+    for fname, what in (("process_event_queue", "completion callback popped from callback_queue"),
+                        ("_run_handlers_sequential", "completion callback of a queue event")):
+        f = em.methods[fname]
+        for c in ast.walk(f.node):
+            if isinstance(c, ast.Call) and isinstance(c.func, ast.Name) and c.func.id == "callback":
+                ok = any(k.arg is None for k in c.keywords)
+                chk.ob("FWD-1", "%s is called with its kwargs" % what, ok, f.where(c), construct=f.ident,
+                       text="callback called without **kwargs in " + fname)
+    chk.floor("FWD-1", 20)
+
+
+def _priority_value(chk, f_add):
+    """PRIO-1: the priority stored with a handler is the caller's `priority` plus the documented additive
+    adjustments (".N" suffix of the event string, relative_priority of the handler) -- never reduced or replaced."""
+    recs = [c for c in ast.walk(f_add.node) if isinstance(c, ast.Call) and dotted(c.func) == "RegisteredHandler"]
+    if not recs:
+        chk.missing("PRIO-1", "add_handler builds the RegisteredHandler record", f_add)
+        return
+    for c in recs:
+        pr = c.args[1] if len(c.args) > 1 else kwarg(c, "priority")
+        chk.ob("PRIO-1", "the record's priority field is the `priority` variable", pr is not None and src(pr) == "priority",
+               f_add.where(c), construct=f_add.ident, text="priority field " + (src(pr) if pr is not None else "?"))
+    adds = 0
+    for n in ast.walk(f_add.node):
+        tgt = None
+        if isinstance(n, ast.AugAssign) and isinstance(n.target, ast.Name) and n.target.id == "priority":
+            ok = isinstance(n.op, ast.Add)
+            adds += 1
+            chk.ob("PRIO-1", "priority adjustments are additive", ok, f_add.where(n), construct=f_add.ident,
+                   text="priority adjusted with " + type(n.op).__name__)
+        elif isinstance(n, ast.Assign) and any(isinstance(t, ast.Name) and t.id == "priority" for t in n.targets):
+            ok = isinstance(n.value, ast.BinOp) and isinstance(n.value.op, ast.Add) and "priority" in src(n.value)
+            adds += 1
+            chk.ob("PRIO-1", "priority is only ever increased by an adjustment, not replaced", ok, f_add.where(n),
+                   construct=f_add.ident, text="priority rebound: " + short(n, 60))
+    # the ".N" suffix parsed from the event string is used
+    used = any(isinstance(n, ast.Name) and n.id == "additional_priority" and isinstance(n.ctx, ast.Load)
+               for n in ast.walk(f_add.node))
+    names_bound = any(isinstance(t, ast.Name) and t.id == "additional_priority"
+                      for n in ast.walk(f_add.node) if isinstance(n, ast.Assign)
+                      for tt in n.targets for t in (tt.elts if isinstance(tt, ast.Tuple) else [tt]))
+    if names_bound:
+        chk.ob("PRIO-1", "the priority suffix parsed from the event string is applied", used, f_add.where(),
+               construct=f_add.ident, text="additional_priority parsed but unused")
+    # the @event_handler(relative_priority) decorator of this module stores the attribute on handlers
+    decorated = any(isinstance(n, ast.Attribute) and n.attr == "relative_priority" and isinstance(n.ctx, ast.Store)
+                    for m in chk.repo.modules.values() for n in ast.walk(m.tree) if m.relpath.startswith("mpf/core/"))
+    if decorated:
+        applied = any(isinstance(n, (ast.AugAssign, ast.Assign)) and "relative_priority" in src(n.value)
+                      and "priority" in src(n.target if isinstance(n, ast.AugAssign) else n.targets[0])
+                      for n in ast.walk(f_add.node) if isinstance(n, (ast.AugAssign, ast.Assign)))
+        chk.ob("PRIO-1", "a handler's relative_priority (set by @event_handler) is applied", applied, f_add.where(),
+               construct=f_add.ident, text="relative_priority not applied")
+    chk.floor("PRIO-1", 3)
+
 
 SCHEDULERS = {"schedule_once", "schedule_interval", "call_soon", "call_later", "call_at", "add_done_callback"}
 
@@ -381,14 +554,18 @@ def _qdisc(chk, em, f_peq):
                 chk.ob("QDISC-1", "indexed store into %s deque" % kind_of(n.value), False, f.where(n),
                        construct=f.ident, text="indexed store " + short(n, 60))
     for k, ops in ALLOWED.items():
-        chk.expect(ops <= seen[k], "C01: QDISC-1 lost its anchors for the %s deque (saw %s)" % (k, sorted(seen[k])))
+        if not ops <= seen[k]:
+            chk.missing("QDISC-1", "%s deque is used with both of its ends %s (saw %s)" % (k, sorted(ops), sorted(seen[k])),
+                        f_peq)
     chk.floor("QDISC-1", 6)
 
 
 def _sort_rule(chk, f_add):
     cfg = f_add.cfg()
     ins = [(n, c) for n, c in cfg.calls_named("append", "insert", "extend") if "registered_handlers" in src(c.func)]
-    chk.require(ins, "C01: add_handler no longer appends to registered_handlers")
+    if not ins:
+        chk.missing("SORT-1", "add_handler inserts the handler into registered_handlers[event]", f_add)
+        return
     sorts = []
     for n, c in cfg.calls_named("sort"):
         if "registered_handlers" in src(c.func):
@@ -435,7 +612,9 @@ def _merge_and_condition(chk, f):
     cfg = f.cfg()
     calls = [(n, c) for n, c in cfg.calls_named("callback")
              if isinstance(c.func, ast.Attribute) and isinstance(c.func.value, ast.Name)]
-    chk.require(calls, "C01: handler call not found in %s" % f.qualname)
+    if not calls:
+        chk.missing("DOM-2", "handler call reachable in the dispatch loop", f)
+        return
     posted = "kwargs"
     for n, c in calls:
         hv = c.func.value.id        # loop variable holding the RegisteredHandler
@@ -513,6 +692,42 @@ def _merge_and_condition(chk, f):
             w = cfg.path_avoiding(it.id, [n.id], [t.id for t in tests], ignore_exc=True)
             chk.ob("DOM-2", "no path to the handler call bypasses the condition test", w is None, f.where(c),
                    path=cfg.fmt_path(w, f.relpath) if w else None, construct=f.ident, text="bypass of condition test")
+        # ---- DOM-2b: the only other way to skip a handler is the blocking test (`_min_priority`): a `continue`
+        # in the handler loop before the call must be guarded, on every feasible path, by a posted _min_priority,
+        # a handler that takes part in blocking, and a *strict* `minimum > handler.priority` comparison
+        skips = [x for x in cfg.nodes if x.kind == "stmt" and isinstance(x.ast, ast.Continue) and _in_body(head.ast, x.ast)
+                 and cfg.path_avoiding(x.id, [n.id], [], ignore_exc=True) is not None]
+        cond_tests = {t.id for t in tests}
+        for sk in skips:
+            dom = cfg.dominators(True).get(sk.id, ())
+            if any(d in cond_tests for d in dom) and any(
+                    b.kind == "branch" and b.test in cond_tests and b.id in dom for b in cfg.nodes):
+                continue        # the condition-false skip, decided above
+            for path, facts in feasible_paths(cfg, it.id, [sk.id]):
+                prio_true = [k for k, v in facts.items() if v is True and ".priority" in k and ">" in k]
+                shape_ok = True
+                for k in [k for k in facts if ".priority" in k]:
+                    try:
+                        e = ast.parse(k, mode="eval").body
+                    except SyntaxError:
+                        continue
+                    if isinstance(e, ast.Compare) and len(e.ops) == 1:
+                        l, r = src(e.left), src(e.comparators[0])
+                        strict = (isinstance(e.ops[0], ast.Gt) and r.endswith(".priority") and "_min_priority" in l) or \
+                                 (isinstance(e.ops[0], ast.Lt) and l.endswith(".priority") and "_min_priority" in r)
+                        if not strict:
+                            shape_ok = False
+                has_min = any(v is True and "_min_priority" in k and " in " in k and "not in" not in k and ".priority" not in k
+                              and "blocking_facility in" not in k for k, v in facts.items())
+                takes_part = any(v is True and k.endswith(".blocking_facility") for k, v in facts.items())
+                fac_cmp = [k for k in prio_true if "blocking_facility]" in k]
+                all_cmp = [k for k in prio_true if "blocking_facility]" not in k]
+                member = any(v is True and "blocking_facility in " in k for k, v in facts.items())
+                ok = bool(prio_true) and shape_ok and has_min and takes_part and (bool(all_cmp) or (bool(fac_cmp) and member))
+                chk.ob("DOM-2", "a handler is skipped by blocking only when a posted minimum is strictly above its priority",
+                       ok, f.where(sk.ast), detail="path facts: %s" % sorted((k, v) for k, v in facts.items()
+                                                                              if "priority" in k or "blocking" in k),
+                       construct=f.ident, text="blocking skip guard", path=cfg.fmt_path(path, f.relpath))
     chk.floor("FLOW-1", 4)
     chk.floor("DOM-2", 6)
 
@@ -535,7 +750,9 @@ def _callbacks(chk, f_pe, f_rhs, f_peq, f_pqe):
                text="append guard")
         # after the handlers have run
         rh = [m for m, _ in cfg.calls_named("_run_handlers")]
-        chk.require(rh, "C01: _run_handlers call vanished from _process_event")
+        if not rh:
+            chk.missing("DOM-3", "_process_event runs the handlers (reachable _run_handlers call)", f_pe)
+            continue
         after = all(not cfg.path_avoiding(n.id, [m.id], [], ignore_exc=True) for m in rh)
         chk.ob("DOM-3", "callback is queued after the handlers ran", after, f_pe.where(c), construct=f_pe.ident,
                text="append before handlers")
@@ -575,7 +792,8 @@ def _callbacks(chk, f_pe, f_rhs, f_peq, f_pqe):
     # process_event_queue: callback pop+call outside the inner draining loop
     cfg = f_peq.cfg()
     pops = [(n, c) for n, c in cfg.calls_named("pop", "popleft") if "callback_queue" in src(c.func)]
-    chk.require(pops, "C01: callback_queue.pop vanished from process_event_queue")
+    if not pops:
+        chk.missing("DOM-3", "process_event_queue pops and runs completion callbacks (reachable callback_queue.pop)", f_peq)
     whiles = [x for x in ast.walk(f_peq.node) if isinstance(x, ast.While)]
     inner = [w for w in whiles if "next_queue" in src(w.test) or any(
         isinstance(p, ast.While) and w is not p and _in_body(p, w) for p in whiles)]
@@ -648,7 +866,24 @@ def battery():
         M("twin: draining callable via local", "mpf/core/delays.py", "        self.delays[name] = (self.machine.clock.schedule_once(\n            partial(self._process_delay_callback, name, callback, **kwargs),\n            ms / 1000.0), partial(callback, **kwargs))", "        delay_callback = partial(self._process_delay_callback, name, callback, **kwargs)\n        self.delays[name] = (self.machine.clock.schedule_once(delay_callback, ms / 1000.0), partial(callback, **kwargs))", None),
         M("foreign module dispatches", "mpf/core/delays.py", "        self.machine.events.process_event_queue()", "        self.machine.events._process_event('x', None)\n        self.machine.events.process_event_queue()", "OWN-1"),
         M("drain scheduled after append", E, "        if not self.event_queue and hasattr(self.machine.clock, \"loop\"):\n            self.machine.clock.loop.call_soon(self.process_event_queue)\n\n        posted_event = PostedEvent(event, ev_type, callback, kwargs)", "        posted_event = PostedEvent(event, ev_type, callback, kwargs)\n        self.event_queue.append(posted_event)\n        if not self.event_queue and hasattr(self.machine.clock, \"loop\"):\n            self.machine.clock.loop.call_soon(self.process_event_queue)\n", "DOM-1"),
+        M("drained deque stays the posting deque (outer)", E, "                next_queue = self.event_queue\n                self.event_queue = deque()\n                while next_queue:", "                next_queue = self.event_queue\n                while next_queue:", "FRESH-0"),
+        M("drained deque stays the posting deque (nested)", E, "                        next_queue = self.event_queue\n                        self.event_queue = deque()\n", "                        next_queue = self.event_queue\n", "FRESH-0"),
+        M("post_boolean drops posted kwargs", E, "self._post(event, 'boolean', callback, **kwargs)", "self._post(event, 'boolean', callback)", "FWD-1"),
+        M("post_relay drops the callback", E, "self._post(event, 'relay', callback, **kwargs)", "self._post(event, 'relay', None, **kwargs)", "FWD-1"),
+        M("async handler loses registration kwargs", E, "return self.add_handler(event, partial(self._async_handler_coroutine, handler), priority, blocking_facility,\n                                **kwargs)", "return self.add_handler(event, partial(self._async_handler_coroutine, handler), priority, blocking_facility)", "FWD-1"),
+        M("async handler loses priority", E, "partial(self._async_handler_coroutine, handler), priority, blocking_facility,", "partial(self._async_handler_coroutine, handler), 1, blocking_facility,", "FWD-1"),
+        M("async coroutine called without kwargs", E, "asyncio.create_task(_coroutine(**kwargs))", "asyncio.create_task(_coroutine())", "FWD-1"),
+        M("queue callback without kwargs", E, "        if callback:\n            callback(**kwargs)", "        if callback:\n            callback()", "FWD-1"),
+        M("event-string priority suffix ignored", E, "        priority += additional_priority\n", "", "PRIO-1"),
+        M("relative priority subtracted", E, "priority += handler.relative_priority", "priority -= handler.relative_priority", "PRIO-1"),
+        M("relative priority not applied", E, "            priority += handler.relative_priority\n", "            pass\n", "PRIO-1"),
+        M("blocking compares >=", E, "kwargs['_min_priority']['all'] > handler.priority", "kwargs['_min_priority']['all'] >= handler.priority", "DOM-2"),
+        M("blocking applies to handlers outside any facility", E, "if '_min_priority' in kwargs and handler.blocking_facility and \\\n", "if '_min_priority' in kwargs and \\\n", "DOM-2"),
+        M("handler call deleted", E, "                result = handler.callback(**merged_kwargs)", "                result = None", ("OWN-1", "DOM-2")),
+        M("callbacks never run", E, "            if self.callback_queue:\n                callback, kwargs = self.callback_queue.pop()\n                callback(**kwargs)", "            self.callback_queue.clear()", ("DOM-3", "QDISC-1")),
         # twins: behaviour-preserving rewrites must stay silent
+        M("twin: swap deques in one statement", E, "                next_queue = self.event_queue\n                self.event_queue = deque()\n                while next_queue:", "                next_queue, self.event_queue = self.event_queue, deque()\n                while next_queue:", None),
+        M("twin: additive priority spelled out", E, "        priority += additional_priority\n", "        priority = priority + additional_priority\n", None),
         M("twin: list() snapshot", E, "for handler in self.registered_handlers[event][:]:", "for handler in list(self.registered_handlers[event]):", None, nth=-1),
         M("twin: {**a, **b} merge", E, "merged_kwargs = dict(list(kwargs.items()) + list(handler.kwargs.items()))", "merged_kwargs = {**kwargs, **handler.kwargs}", None, nth=-1),
         M("twin: dict(a, **b) merge", E, "merged_kwargs = dict(list(kwargs.items()) + list(handler.kwargs.items()))", "merged_kwargs = dict(kwargs, **handler.kwargs)", None, nth=-1),
